@@ -297,6 +297,23 @@ func genRecover(seed uint64, g *gen, thorough bool) *Case {
 		c.Knobs.L0Trigger = r.pick(2, 3, 4)
 	}
 	c.Damage = dm
+	if r.p(0.25) {
+		// tables written under one filter policy, Recover run under another
+		// one that lists the first in AltFilters (same Options value as the
+		// last session)
+		c.Knobs.FilterBits = r.pick(10, 4, -1)
+		k2 := c.Knobs
+		k2.AltFilterBits = []int{c.Knobs.FilterBits}
+		if c.Knobs.FilterBits < 0 {
+			k2.FilterBits = r.pick(0, 10)
+		} else {
+			k2.FilterBits = r.pick(0, -1)
+		}
+		c.Clients[0] = append(c.Clients[0], Op{K: "reopen", Knob: &k2})
+		for i := r.rng(0, 3); i > 0; i-- {
+			c.Clients[0] = append(c.Clients[0], g.writeOp(0.1))
+		}
+	}
 	if r.p(0.4) {
 		// explicit strictness levels that keep block checksums on (damage must
 		// stay detectable) and leave StrictRecovery off (damage is dropped,
